@@ -13,7 +13,8 @@
 From Coq Require Import List Ascii String ZArith NArith Bool.
 From YP Require Import Outcome PyStr PyVal Doc Generated PathParser PathPrinter Searches Eval SpecC15 SpecC09
      EvalGood EvalHandlers EvalTotal EvalPure EvalC15
-     Keywords EvalKw SpecC15kw EvalKwClean EvalKwTotal EvalKwColl EvalKwC15.
+     Keywords EvalKw SpecC15kw EvalKwClean EvalKwTotal EvalKwColl EvalKwC15
+     C14Pairs ParserPairs C15Shape PreparedFrag.
 Import ListNotations.
 Open Scope string_scope.
 
@@ -133,7 +134,48 @@ Theorem C15_kw_fragment_in_guard :
   forall (p : ppath) (d : node), in_fragment_kw p = true -> kc_fragment lit re_search nstr vstr p d = true.
 Proof. exact (frag_kw_kc lit re_search nstr vstr). Qed.
 
+(* For a path PREPARED FROM A TEXT the fragment's demands "types and attributes
+   agree the way the parser pairs them" are no longer assumed: they follow from
+   the parser invariant C14_segments_paired (since the repair of F30 every
+   accepted text consists of typed segments whose COLLECTOR / KEYWORD_SEARCH /
+   SEARCH types carry their terms).  What remains is [collector_free_kw]
+   (Spec/C15Shape.v): no COLLECTOR-typed segment, every sub-path parsed or
+   failed with a YAMLPathException, every keyword parameter text splits. *)
+Theorem C15_required_only_ype_text :
+  forall (fuel : nat) (text : string) (p : ppath) (d : node),
+    prepare fuel text = Ok p -> collector_free_kw p = true ->
+    clean_stop (snd (ek_required lit re_search nstr vstr p d)).
+Proof. exact (required_only_ype_text lit re_search nstr vstr lit_total re_total). Qed.
+
+Theorem C15_exists_only_ype_text :
+  forall (fuel : nat) (text : string) (p : ppath) (d : node),
+    prepare fuel text = Ok p -> collector_free_kw p = true ->
+    clean_stop (snd (ek_exists lit re_search nstr vstr p d)).
+Proof. exact (exists_only_ype_text lit re_search nstr vstr lit_total re_total). Qed.
+
+Theorem C15_optional_only_ype_text :
+  forall (fuel : nat) (text : string) (p : ppath) (d : node),
+    prepare fuel text = Ok p -> collector_free_kw p = true ->
+    clean_or_mut (snd (ek_optional lit re_search nstr vstr p d)).
+Proof. exact (optional_only_ype_text lit re_search nstr vstr lit_total re_total). Qed.
+
 End StatementsKw.
+
+(* the two fragments, for prepared texts, without the pairing demands *)
+Theorem C15_prepared_in_fragment :
+  forall (fuel : nat) (text : string) (p : ppath),
+    prepare fuel text = Ok p -> collector_free p = true -> in_fragment p = true.
+Proof. exact prepared_in_fragment. Qed.
+
+Theorem C15_prepared_in_fragment_kw :
+  forall (fuel : nat) (text : string) (p : ppath),
+    prepare fuel text = Ok p -> collector_free_kw p = true -> in_fragment_kw p = true.
+Proof. exact prepared_in_fragment_kw. Qed.
+Print Assumptions C15_prepared_in_fragment.
+Print Assumptions C15_prepared_in_fragment_kw.
+Print Assumptions C15_required_only_ype_text.
+Print Assumptions C15_exists_only_ype_text.
+Print Assumptions C15_optional_only_ype_text.
 Print Assumptions C15_kw_handler_clean.
 Print Assumptions C15_required_only_ype_kw.
 Print Assumptions C15_exists_only_ype_kw.
@@ -183,23 +225,27 @@ Example C15_collector_then_text :
   end.
 Proof. vm_compute. repeat split; reflexivity. Qed.
 
-(* Still FALSE without the fragment: the parser accepts two malformed shapes
-   that leave a segment WITHOUT a usable type -- a collector opened inside an
-   open bracket ("[(a)]": the `]` stores a segment whose type is None) and a
-   stray `]` that pops a collector's parenthesis, the imbalance then being
-   repaired by a keyword's parentheses ("(][max(())]": a COLLECTOR-typed segment
-   holding the text "]") -- and _get_nodes_by_path_segment raises
-   NotImplementedError for both (processor.py:931).  Known finding F30, found
-   while repairing F25 (same raising site, other parser states). *)
-Theorem C15_bracket_collector_refuted :
-  forall text, In text ["[(a)]"; "(][max(())]"] ->
+(* Finding F30, repaired (fix in YAMLPath._parse_path): the malformed shapes
+   that used to be ACCEPTED and to leave a segment without a usable type --
+   a collector opened inside an open bracket ("[(a)]", "[a=(b)]", "[a='(b)'=c]":
+   a segment typed None, or SEARCH-typed with a plain text), a stray `]` that
+   popped a collector's parenthesis ("(][max(())]": a COLLECTOR-typed segment
+   holding the text "]"), a keyword's `)` that popped the bracket
+   ("[max()\])": a KEYWORD_SEARCH-typed segment holding the text "]") --
+   for which _get_nodes_by_path_segment raised NotImplementedError
+   (the former C15_bracket_collector_refuted), are now refused by the parser:
+   the path is a YAMLPathException, inside the fragment, and the query ends
+   with it.  That no other text reaches the dispatcher's NotImplementedError
+   is C14_segments_paired (Properties/C14.v). *)
+Example C15_bracket_collector_refused :
+  forall text, In text ["[(a)]"; "(][max(())]"; "[a=(b)]"; "[a='(b)'=c]"; "[max()\])"; "[a=[b(c)]=d]"] ->
     match prepare 14 text with
-    | Ok p => in_fragment p = false /\
-              snd (get_required lit0 re0 nstr0 vstr0 kw0 cr0 p doc_ab) = Err (PyCrash NotImplemented)
+    | Ok p => p = PFail (YPE Generic) /\ in_fragment p = true /\
+              snd (get_required lit0 re0 nstr0 vstr0 kw0 cr0 p doc_ab) = Err (YPE Generic)
     | _ => False
     end.
 Proof.
-  intros text [<-|[<-|[]]]; vm_compute; split; reflexivity.
+  intros text H; repeat (destruct H as [<-|H]; [vm_compute; repeat split; reflexivity|]); destruct H.
 Qed.
 
 (* Non-vacuity: the fragment contains non-trivial parsed paths, and they select nodes. *)
@@ -271,6 +317,31 @@ Proof. vm_compute. reflexivity. Qed.
 
 Example C15_kw_wildcard_parent : run_req_kw "z.*[parent()]" doc_z = Ok ([2%N; 2%N; 2%N], Done).
 Proof. vm_compute. reflexivity. Qed.
+
+(* non-vacuity of the text-level statements; and the one demand about keyword
+   parameters that is NOT a parser guarantee: an escaped quote reaches
+   SearchKeywordTerms.parameters unbalanced (finding F31) *)
+Example C15_text_example :
+  match prepare 40 "/**[has_child(a)][parent(2)].b[c=~/d/]" with Ok p => collector_free_kw p | _ => false end = true.
+Proof. vm_compute. reflexivity. Qed.
+
+(* Finding F31 (known, new in round parserfix): the keyword fragment's demand
+   [kw_params_ok] is needed -- the parser accepts "[max(\')]", the escaped
+   parse stores the parameter text "'" (the back-slash is stripped), and
+   SearchKeywordTerms.parameters raises ValueError on it when the segment is
+   evaluated.  The path is inside [in_fragment] (types and attributes agree)
+   and outside [in_fragment_kw]. *)
+Theorem C15_kw_params_refuted :
+  match prepare 12 "[max(\')]" with
+  | Ok p => in_fragment p = true /\ in_fragment_kw p = false /\ collector_free p = true /\
+            snd (ek_required lit0 re0 nstr0 vstr0 p doc_ab) = Err (PyCrash ValueError)
+  | _ => False
+  end.
+Proof. vm_compute. repeat split; reflexivity. Qed.
+
+Example C15_kw_params_not_a_parser_guarantee :
+  parse Auto true "[max(\')]" = Ok [(Some TKeywordSearch, AKeyword false KMax "'")] /\ kw_params_ok "'" = false.
+Proof. vm_compute. split; reflexivity. Qed.
 
 Example C15_kw_params_hyp : kw_params_ok "a, 'b c'" = true /\ kw_params_ok "'a" = false.
 Proof. vm_compute. split; reflexivity. Qed.
